@@ -29,6 +29,10 @@ CHECKS = {
   text="Path-sensitive three-valued abstract interpretation of every exit-status variable in the seven tools (a failure code is never overwritten by a possibly-zero value; helper statuses are never dropped), failure recording in every library-exception handler and not-loaded branch, yaml-get / yaml-diff tool tables, loader agreement between file and stdin, never-returning critical(), console-script resolution. These are code paths no passing test executes; stdout content equality is declined.",
   note="Trusted base: sys.exit never returns; Python structured control flow; argparse attributes unmodelled.",
   technique="abstract interpretation of exit-state variables ({zero, non-zero, either}) over structured control flow + handler/branch obligation rules"),
+ "C17": dict(
+  text="Typestate over each tool's control flow (clean/written with interprocedural writes-files and may-exit summaries; backup-flag x copied over each writer), zero-exit-state guard of the yaml-merge write, refusal of an existing --output in validation, ordering of the yaml-set restore path, and an abstract fault-point enumeration: the ordered file-effect sequences extracted from the writers' code for each flag valuation are interpreted over an abstract file state and 'target intact or backup complete' is checked after a failure at every step. Interprets code structure for every exit path; executes nothing.",
+  note="Trusted base: open('w') truncates, copy2 completes or leaves a partial destination, remove deletes; byte identity of the copy is shutil's.",
+  technique="typestate / must-precede analysis over structured control flow + abstract interpretation of extracted file-effect sequences (static fault-point enumeration)"),
 }
 
 NOT_BUILT = "check not built yet (framework under construction; will be claimed at clause level per DESIGN.md)"
